@@ -309,7 +309,7 @@ fn op_pool(nh: usize) -> Vec<String> {
     let mut v = vec![];
     for h in 0..nh {
         for k in ["A", "C"] {
-            for val in ["x", "l1\nl2", "#h"] {
+            for val in ["x", "l1\nl2", "#h", "l1\n:l2"] {
                 v.push(format!("set.{}.{}.{}", h, es(k), es(val)));
             }
             v.push(format!("ins.{}.{}.{}", h, es(k), es("y")));
